@@ -65,6 +65,7 @@ class PolicyAnalysis:
         self.arg_names = None
         self.hours_arg = None
         self.interest = set()
+        self.visited = {}
 
     def make_args(self, eng, pattern):
         b = self.body
@@ -156,7 +157,7 @@ class PolicyAnalysis:
             worlds.append(World(pattern, self.policy_of(st.asm), dict(st.asm), final, None))
         for st in E.leaves_of(tree):
             expand(st)
-        return worlds, events, dict(eng.unmodelled), list(eng.incomplete), eng.steps
+        return worlds, events, dict(eng.unmodelled), list(eng.incomplete), eng.steps, dict(eng.visited)
 
     def run(self, parallel=True):
         results = []
@@ -168,7 +169,9 @@ class PolicyAnalysis:
                 results = pool.map(_run_one, range(len(self.patterns)))
         else:
             results = [self.run_pattern(p) for p in self.patterns]
-        for worlds, events, unm, inc, steps in results:
+        for worlds, events, unm, inc, steps, vis in results:
+            for k, v in vis.items():
+                self.visited[k] = self.visited.get(k, 0) + v
             self.worlds += worlds
             self.events += events
             self.panics += [e for e in events if e['kind'] == 'panic']
